@@ -36,6 +36,8 @@ func (p cParam) tok() string {
 	switch p.kind {
 	case "s":
 		return "s:" + proto.Enc(p.s)
+	case "l":
+		return "x" // a []string value is not a cacheable parameter
 	case "c":
 		// the key the model files the context under is written out here, field by field — not asked of the
 		// implementation, whose key function is part of what is checked
@@ -61,6 +63,8 @@ func (p cParam) goVal() interface{} {
 		return p.s
 	case "c":
 		return p.ctx()
+	case "l":
+		return strings.Split(p.s, ",")
 	}
 	return 5
 }
@@ -197,6 +201,11 @@ func c14Keys(c *Ctx) {
 	check([]cParam{{"c", "e2"}, {"s", "a"}})
 	check([]cParam{{"s", casbin.NewEnforceContext("").GetCacheKey()}, {"s", "a"}})
 	check([]cParam{{"x", ""}, {"s", "a"}})
+	// a request handed over as ONE []string value is one value that cannot be cached, not the tuple of its fields
+	check([]cParam{{"l", "a,b,c"}})
+	check([]cParam{{"s", "a"}, {"s", "b"}, {"s", "c"}})
+	check([]cParam{{"l", "alice,data1,read"}})
+	check([]cParam{{"l", "a"}, {"s", "b"}})
 	// a tuple whose later value cannot be cached, then cacheable tuples: whatever the key function wrote before it
 	// gave up must not leak into the next key (repeated: pooled state may or may not be handed back)
 	for rep := 0; rep < 8; rep++ {
@@ -410,7 +419,13 @@ func c14Random(c *Ctx, synced bool, length int, fields []string, rules [][]strin
 	anyRule := func() []string { return rules[rng.Intn(len(rules))] }
 	randReq := func() []cParam {
 		if rng.Intn(3) != 0 {
-			return strParams(anyRule())
+			r := anyRule()
+			if rng.Intn(7) == 0 {
+				// a listed rule's fields as ONE []string value: not the request (alice, data1, read), whatever is
+				// cached for that
+				return []cParam{{"l", strings.Join(r, ",")}}
+			}
+			return strParams(r)
 		}
 		n := 3
 		ps := make([]cParam, n)
@@ -422,6 +437,9 @@ func c14Random(c *Ctx, synced bool, length int, fields []string, rules [][]strin
 			ps = append([]cParam{{"c", []string{"", "e2"}[rng.Intn(2)]}}, ps...)
 		case 1:
 			ps[rng.Intn(n)] = cParam{"x", ""}
+		case 3:
+			// the same fields as one []string value: uncacheable, and (wrong request size) an error underneath
+			ps = []cParam{{"l", ps[0].s + "," + ps[1].s + "," + ps[2].s}}
 		case 2:
 			ps = ps[:2] // wrong arity: the underlying enforcer reports an error
 		}
